@@ -210,6 +210,9 @@ impl Screen {
         self.dirty.clear();
         self.dirty.extend(0..lines);
 
+        // Rows are dropped from the top of the screen, not of the scrolling region.
+        self.margins = None;
+
         if lines < self.lines {
             self.save_cursor();
             self.cursor_position(Some(0), Some(0));
